@@ -526,7 +526,7 @@ def depth_job(eng, tables, prop, levels, native_levels, deadline, max_paths=None
     return job
 
 
-def spine_input(ctx, levels, policy, via, form):
+def spine_input(ctx, levels, policy, via, form, root_ty="CoseSign1"):
     """COSE_Sign1 with `levels` nested counter-signatures.  via='protected': each level sits in the
     protected header (bstr) of the previous one; via='unprotected': in its unprotected header.
     form='bare': label 7 holds one COSE_Signature; form='list': a one-element array of them."""
@@ -569,11 +569,29 @@ def spine_input(ctx, levels, policy, via, form):
         preset(hdr, "Map", entries=[(k, v)])
         return items[0], items[1]
 
-    top = [InputNode("v[%d]" % i, policy) for i in range(4)]
-    preset(root, "Array", items=top)
-    preset(top[2], "Null")
-    bytes_node(top[3], "signature")
-    prot, unprot = top[0], top[1]
+    if root_ty == "CoseSign1":
+        top = [InputNode("v[%d]" % i, policy) for i in range(4)]
+        preset(root, "Array", items=top)
+        preset(top[2], "Null")
+        bytes_node(top[3], "signature")
+        prot, unprot = top[0], top[1]
+    elif root_ty == "CoseSignature":
+        top = [InputNode("v[%d]" % i, policy) for i in range(3)]
+        preset(root, "Array", items=top)
+        bytes_node(top[2], "signature")
+        prot, unprot = top[0], top[1]
+    else:                       # CoseSign: the spine hangs off its only signer
+        top = [InputNode("v[%d]" % i, policy) for i in range(4)]
+        preset(root, "Array", items=top)
+        empty_bstr(top[0], "body-prot")
+        preset(top[1], "Map", entries=[])
+        preset(top[2], "Null")
+        signer = [InputNode("v[3][0][%d]" % i, policy) for i in range(3)]
+        s0 = InputNode("v[3][0]", policy)
+        preset(s0, "Array", items=signer)
+        preset(top[3], "Array", items=[s0])
+        bytes_node(signer[2], "signature")
+        prot, unprot = signer[0], signer[1]
     for d in range(levels):
         if via == "protected":
             bytes_node(prot, "prot%d" % d)
@@ -589,14 +607,20 @@ def spine_input(ctx, levels, policy, via, form):
     return root
 
 
-def spine_job(eng, tables, prop, max_level, deadline, max_paths=None, initial=None, bfs=False, slice_s=None):
+SPINE_ROOTS = {"CoseSign1": ("sign::CoseSign1", "sign1"), "CoseSignature": ("sign::CoseSignature", "signature"),
+               "CoseSign": ("sign::CoseSign", "sign")}
+
+
+def spine_job(eng, tables, prop, max_level, deadline, max_paths=None, initial=None, bfs=False, slice_s=None,
+              root_ty="CoseSign1"):
     """Nesting spines of counter-signatures, level by level, through protected and unprotected
     headers, in the bare and in the list form: a spine is accepted exactly up to the documented
     nesting limit (the crate's MAX_COUNTER_SIGNATURE_DEPTH), an accepted spine decodes to the
     reference value, encodes, and its encoding decodes to an equal value again."""
     import sys
     from jobs_encode import strip_original
-    job = JobResult("spine:CoseSign1")
+    job = JobResult("spine:%s" % root_ty)
+    rpath, rmethod = SPINE_ROOTS[root_ty]
     seen = {}
     policy = Policy(max_array=3, max_map=1, max_depth=10 ** 6)
     limit = None
@@ -611,8 +635,30 @@ def spine_job(eng, tables, prop, max_level, deadline, max_paths=None, initial=No
             for form in ("bare", "list"):
                 for n in range(1, max_level + 1):
                     def harness(ctx, n=n, via=via, form=form):
-                        root = spine_input(ctx, n, policy, via, form)
-                        r = ctx.call("<sign::CoseSign1 as AsCborValue>::from_cbor_value", [Lazy(root)])
+                        root = spine_input(ctx, n, policy, via, form, root_ty)
+                        if prop == "C11":
+                            # encode direction: the in-memory value this spine denotes (built by the
+                            # reference decoder, not by coset) encodes, and the output decodes back
+                            if limit is not None and n > limit:
+                                return []
+                            ref = refdec.RefDec(ctx, eng.impls, tables, strict=True)
+                            val = getattr(ref, rmethod)(root)
+                            if ref.faults or val is None:
+                                return []
+                            ctx.side["spine_accepted"] = True
+                            keep = deep_clone(val)
+                            r1 = ctx.call("<%s as AsCborValue>::to_cbor_value" % rpath, [val])
+                            if r1.variant != "Ok":
+                                return [("C11", "roundtrip", "spine-roundtrip", "a value with a %d-level counter-signature spine does not encode" % n)]
+                            r2 = ctx.call("<%s as AsCborValue>::from_cbor_value" % rpath, [deep_clone(r1.fields[0])])
+                            if r2.variant != "Ok":
+                                return [("C11", "roundtrip", "spine-roundtrip", "the encoding of a value with a %d-level spine (%s headers, %s form) "
+                                         "is rejected (%s)" % (n, via, form, r2.fields[0].variant))]
+                            eq = hcommon.spec_eq(ctx, r2.fields[0], keep)
+                            if eq is not True and (eq is False or ctx.check(z3.Not(eq))):
+                                return [("C11", "roundtrip", "spine-roundtrip", "decode(encode(v)) != v on a nesting spine")]
+                            return []
+                        r = ctx.call("<%s as AsCborValue>::from_cbor_value" % rpath, [Lazy(root)])
                         problems = []
                         want_ok = limit is None or n <= limit
                         if (r.variant == "Ok") != want_ok:
@@ -622,17 +668,17 @@ def spine_job(eng, tables, prop, max_level, deadline, max_paths=None, initial=No
                         ctx.side["spine_accepted"] = r.variant == "Ok"
                         if r.variant != "Ok":
                             return problems
-                        d = hcommon.compare_with_reference(ctx, eng, tables, "sign1", root, r, strict_first=True)
+                        d = hcommon.compare_with_reference(ctx, eng, tables, rmethod, root, r, strict_first=True)
                         if d is not None:
                             problems.append(("C09", "limit", "spine-" + d["class"], d["what"]))
                             return problems
                         x = r.fields[0]
                         keep = deep_clone(x)
-                        r1 = ctx.call("<sign::CoseSign1 as AsCborValue>::to_cbor_value", [x])
+                        r1 = ctx.call("<%s as AsCborValue>::to_cbor_value" % rpath, [x])
                         if r1.variant != "Ok":
                             problems.append(("C07", "roundtrip", "spine-roundtrip", "an accepted spine does not encode"))
                             return problems
-                        r2 = ctx.call("<sign::CoseSign1 as AsCborValue>::from_cbor_value", [deep_clone(r1.fields[0])])
+                        r2 = ctx.call("<%s as AsCborValue>::from_cbor_value" % rpath, [deep_clone(r1.fields[0])])
                         if r2.variant != "Ok":
                             e = r2.fields[0]
                             problems.append(("C07", "roundtrip", "spine-roundtrip", "the encoding of an accepted %d-level spine (%s headers, %s form) is rejected (%s)"
@@ -660,7 +706,7 @@ def spine_job(eng, tables, prop, max_level, deadline, max_paths=None, initial=No
                             _, mode, cls, what = mine[0]
                         else:
                             continue
-                        key = "%s:CoseSign1:%s" % (prop, cls)
+                        key = "%s:%s:%s" % (prop, root_ty, cls)
                         seen[key] = seen.get(key, 0) + 1
                         if seen[key] > 2:
                             continue
@@ -670,10 +716,10 @@ def spine_job(eng, tables, prop, max_level, deadline, max_paths=None, initial=No
                         reg = {}
                         tree = concrete.node_to_tree(m, ctx.inputs["v"], reg)
                         hx = concrete.encode(tree).hex()
-                        job.findings.append({"property": prop, "key": key, "what": "CoseSign1: " + what, "op": "roundtrip",
-                                             "type": "CoseSign1", "input_hex": hx,
-                                             "commands": ["ops spine %s %s %s" % (mode, hx, limit if limit is not None else -1)],
-                                             "command": "ops spine %s %s %s" % (mode, hx, limit if limit is not None else -1),
+                        job.findings.append({"property": prop, "key": key, "what": root_ty + ": " + what, "op": "roundtrip",
+                                             "type": root_ty, "input_hex": hx,
+                                             "commands": ["ops spine %s:%s %s %s" % (mode, root_ty, hx, limit if limit is not None else -1)],
+                                             "command": "ops spine %s:%s %s %s" % (mode, root_ty, hx, limit if limit is not None else -1),
                                              "predicted": "MISMATCH", "compare": "startswith"})
     finally:
         sys.setrecursionlimit(old)
@@ -771,7 +817,8 @@ def head_job(eng, tables, prop, tname, policy, deadline, max_paths=None, initial
         head = [Sc("u8", ctx.fresh_bv("head[%d]" % i, 8)) for i in range(k)]
         tail = ctx.fresh_opaque("body", "vec", nonempty=True)
         data = VecV(head + [tail.opaque], None, "vec")
-        ctx.side.update(head_parse=head_parse, head=head, tail=tail, mode="tagged" if use_tag else "plain")
+        ctx.side.update(head_parse=head_parse, head=head, tail=tail, mode="tagged" if use_tag else "plain",
+                        concrete_writes=True)
         entry = "<%s as TaggedCborSerializable>::from_tagged_slice" if use_tag else "<%s as CborSerializable>::from_slice"
         try:
             r = ctx.call(entry % path, [slice_ref(data)])
